@@ -12,7 +12,9 @@ from symx import *  # noqa: F403
 from symx.runner import Unit, restore_shadows, shadow
 
 from . import hybrid_common as HC
-from .search_common import conj
+import z3
+
+from .search_common import conj, implies
 
 BOREHOLES = {
     # name: (H, r_b, pipe r_in, r_out, shank, k_soil, k_grout, flow L/s)
@@ -141,8 +143,85 @@ def dur_checks(hl):
     return c
 
 
-def dur_fn(sc, twin=False):
+def _dir_load(x, sign):
+    """kW in the given direction, as split_heat_and_cool defines it (raw W, extraction positive)"""
+    if isinstance(x, Sym):
+        return x / 1000.0 * sign          # the symbolic entries are sign * (positive magnitude)
+    if sign > 0:
+        return x / 1000.0 if x >= 0.0 else 0.0
+    return -x / 1000.0 if x < 0.0 else 0.0
+
+
+def _zmax(terms):
+    t = terms[0]
+    for u in terms[1:]:
+        t = ite(u > t, u, t)
+    return t
+
+
+def equivalence_checks(sc, hl, raw, ctx):
+    """Cullin-Spitler equivalence for the unit's month and direction, written independently from the raw profile: the duration d is
+    the time at which the response to the constant load (peak - average), linear between the hourly values, equals the maximum of the
+    response to the peak-scaled two-day profile (q_i - average) q_i / peak; 1e-6 if that maximum is not positive. Claimed when no load
+    of the two-day window exceeds the monthly peak (otherwise the code scales by the larger load)."""
+    m, sign = sc.m, sc.sign
+    h0, h1 = HC.CUM[m - 1], HC.CUM[m]
+    month = [_dir_load(raw[h], sign) for h in range(h0, h1)]
+    avg = sum(month) / len(month)
+    peak = hl.monthly_peak_hl[m] if sign > 0 else hl.monthly_peak_cl[m]
+    day = hl.monthly_peak_hl_day[m] if sign > 0 else hl.monthly_peak_cl_day[m]
+    d = hl.monthly_peak_hl_duration[m] if sign > 0 else hl.monthly_peak_cl_duration[m]
+    day = int(day)
+    start = h0 + (day - 1) * 24
+    w = [0.0] + [_dir_load(raw[(start + j) % 8760], sign) for j in range(48)]
+    no_larger = conj([x <= peak for x in w if isinstance(x, Sym)] + [bool(x <= peak) if not isinstance(peak, Sym) else (x <= peak) for x in w if not isinstance(x, Sym) and x > 0])
+    from ghedesigner.constants import TWO_PI
+    if not bool(no_larger):            # fork: on this side the code scales by the larger window load - not claimed
+        return [True]
+    two_pi_k = TWO_PI * ctx.bhe.soil.k
+    rb = ctx.bhe.calc_effective_borehole_resistance()
+    ts = ctx.radial.t_s
+    # concrete float operations in the order the code performs them (binary64 results are exact rationals here: an ulp matters)
+    g = [0.0] + [ctx.radial.g_sts([math.log((n * 3600) / ts)])[0] for n in range(1, 49)]
+    big_q = peak - avg
+    nominal = [0.0] + [(w[i] - avg) / peak * w[i] for i in range(1, 49)]
+
+    def response(q):
+        out = [0]
+        for n in range(1, 49):
+            acc = 0
+            for i in range(n):
+                a, b = (q[i + 1] - q[i]) / two_pi_k, g[n - i]
+                if isinstance(a, Sym) or (a != 0 and b != 0):
+                    acc = acc + a * b
+            out.append(acc + q[n] * rb)
+        return out
+    t_nom = response(nominal)
+    t_pk = response([0.0] + [big_q] * 48)
+    t_max = _zmax([lift_sym(x) for x in t_nom])
+    on_curve = []
+    for j in range(48):
+        # binary64 rounding in the concrete parts of the code's interpolation (slope of a concrete segment): relative 1e-9
+        r = t_pk[j] + (d - j) * (t_pk[j + 1] - t_pk[j]) - t_max
+        on_curve.append(implies((d >= j) & (d <= j + 1), (r <= 1e-9 * t_max) & (r >= -1e-9 * t_max)))
+    eq = ite_bool(t_max > 0, conj(on_curve), d == 1.0e-6)
+    return [eq]
+
+
+def lift_sym(x):
+    return x if isinstance(x, Sym) else Sym(lift(float(x)))
+
+
+def ite_bool(c, a, b):
+    c = c if isinstance(c, SymBool) else SymBool(z3.BoolVal(bool(c)))
+    a = a if isinstance(a, SymBool) else SymBool(z3.BoolVal(bool(a)))
+    b = b if isinstance(b, SymBool) else SymBool(z3.BoolVal(bool(b)))
+    return SymBool(z3.If(c.t, a.t, b.t))
+
+
+def dur_fn(sc, twin=False, equivalence=True):
     def fn(e):
+        import ghedesigner.ground_loads as GL
         v = HC.Vals(e=e)
         try:
             hl, raw = run_dur(v, sc)
@@ -151,7 +230,12 @@ def dur_fn(sc, twin=False):
             return False
         if twin:
             return False
-        return conj(dur_checks(hl))
+        cs = dur_checks(hl)
+        # the equivalence stays polynomial (decidable in practice) only when peak, average and hence the constant-load response are
+        # concrete: monthly peak concrete and the symbolic load in the previous month; elsewhere z3 answers unknown - not claimed there
+        if equivalence and 'q_peak' in sc.concrete and sc.peak_day == 0 and all(o < -sc.peak_hour for o in sc.others):
+            cs += equivalence_checks(sc, hl, raw, GL.DUR_CTX)
+        return conj(cs)
     return fn
 
 
@@ -173,8 +257,42 @@ def dur_replay(sc, bname):
                 d = float(du)
                 if not (d > 0 and d <= 48.0 + 1e-9) or math.isnan(d) or math.isinf(d):
                     bad['month %d %s' % (i, nm)] = repr(d)
-        return bool(bad), dict(durations_outside=bad, inputs=model)
+        eqv = native_equivalence(sc, raw, hl, bhe, rn)
+        return bool(bad) or eqv is not None, dict(durations_outside=bad, equivalence=eqv, inputs=model)
     return replay
+
+
+def native_equivalence(sc, raw, hl, bhe, rn):
+    """binary64 re-computation of the Cullin-Spitler equivalence from the raw profile with the real g-function (numpy); returns a
+    description of the mismatch or None"""
+    import numpy as np
+    m, sign = sc.m, sc.sign
+    h0, h1 = HC.CUM[m - 1], HC.CUM[m]
+    month = [_dir_load(float(raw[h]), sign) for h in range(h0, h1)]
+    avg, peak = sum(month) / len(month), max(month)
+    day = month.index(peak) // 24
+    d = float(hl.monthly_peak_hl_duration[m] if sign > 0 else hl.monthly_peak_cl_duration[m])
+    start = h0 + (day - 1) * 24
+    w = [0.0] + [_dir_load(float(raw[(start + j) % 8760]), sign) for j in range(48)]
+    if max(w) > peak or peak <= 0:
+        return None
+    two_pi_k, rb, ts = 2.0 * np.pi * bhe.soil.k, float(bhe.calc_effective_borehole_resistance()), rn.t_s
+    g = [0.0] + [float(rn.g_sts(np.log(n * 3600.0 / ts))) for n in range(1, 49)]
+
+    def response(q):
+        return [0.0] + [sum((q[i + 1] - q[i]) / two_pi_k * g[n - i] for i in range(n)) + q[n] * rb for n in range(1, 49)]
+    t_nom = response([0.0] + [(w[i] - avg) / peak * w[i] for i in range(1, 49)])
+    t_pk = response([0.0] + [peak - avg] * 48)
+    t_max = max(t_nom)
+    if t_max <= 0:
+        return None if abs(d - 1.0e-6) < 1e-12 else 'no positive nominal response but duration %r' % d
+    if not (0 < d <= 48):
+        return None       # reported by the duration clause
+    j = min(int(d), 47)
+    got = t_pk[j] + (d - j) * (t_pk[j + 1] - t_pk[j])
+    if abs(got - t_max) > 1e-6 * abs(t_max):
+        return 'constant-load response at the reported duration %.6f h is %.9g K, maximum of the peak-scaled two-day response is %.9g K' % (d, got, t_max)
+    return None
 
 
 def dur_scenarios(tier):
